@@ -152,6 +152,24 @@ pub struct Style {
     pub exp_upper: bool,
     pub exp_lead_zeros: usize,
     pub omit_zero_exp: bool,
+    /// spelling of digits above 9: 0 upper case, 1 lower case, otherwise mixed (pattern seeded by the value)
+    pub letter_case: u8,
+}
+
+/// digit character in the style's letter case (position-dependent for the mixed style)
+fn styled_digit(d: u8, st: &Style, pos: usize) -> u8 {
+    let c = digit_char(d);
+    match st.letter_case {
+        0 => c,
+        1 => c.to_ascii_lowercase(),
+        k => {
+            if (pos as u64).wrapping_mul(0x9E3779B97F4A7C15).wrapping_add((k as u64).wrapping_mul(0x2545F4914F6CDD1D)) >> 61 & 1 == 1 {
+                c.to_ascii_lowercase()
+            } else {
+                c
+            }
+        },
+    }
 }
 
 pub fn render_exp(out: &mut Vec<u8>, spec: &Spec, e: i64, st: &Style) {
@@ -166,7 +184,7 @@ pub fn render_exp(out: &mut Vec<u8>, spec: &Spec, e: i64, st: &Style) {
         out.push(b'0');
     }
     let ds = Big::from_u64(e.unsigned_abs()).to_digits(spec.exp_radix);
-    out.extend(ds.iter().map(|&d| digit_char(d)));
+    out.extend(ds.iter().enumerate().map(|(i, &d)| styled_digit(d, st, i + 1000)));
 }
 
 /// Render value = digits * radix^-k  (k in mantissa-digit units) in the given style.
@@ -182,14 +200,14 @@ pub fn render(spec: &Spec, digits: &[u8], k: i64, st: &Style) -> Vec<u8> {
         out.push(b'0');
     }
     if st.int_len == usize::MAX {
-        out.extend(digits.iter().map(|&d| digit_char(d)));
+        out.extend(digits.iter().enumerate().map(|(i, &d)| styled_digit(d, st, i)));
         for _ in 0..st.trail_zeros {
             out.push(b'0');
             frac_len -= 1; // integer trailing zeros multiply the value
         }
     } else {
         let i = st.int_len.min(l);
-        out.extend(digits[..i].iter().map(|&d| digit_char(d)));
+        out.extend(digits[..i].iter().enumerate().map(|(j, &d)| styled_digit(d, st, j)));
         if i == 0 && st.lead_zeros == 0 {
             out.push(b'0');
         }
@@ -200,7 +218,7 @@ pub fn render(spec: &Spec, digits: &[u8], k: i64, st: &Style) -> Vec<u8> {
                 frac_len += 1;
             }
         }
-        out.extend(digits[i..].iter().map(|&d| digit_char(d)));
+        out.extend(digits[i..].iter().enumerate().map(|(j, &d)| styled_digit(d, st, i + j)));
         frac_len += (l - i) as i64;
         for _ in 0..st.trail_zeros {
             out.push(b'0');
@@ -246,6 +264,12 @@ pub fn random_style(rng: &mut Rng, ndigits: usize) -> Style {
         st.exp_lead_zeros = 1 + rng.below(3) as usize;
     }
     st.omit_zero_exp = rng.chance(1, 2);
+    // letter digits in either case (lexical accepts both for every radix above 10)
+    st.letter_case = match rng.below(6) {
+        0 | 1 | 2 => 0,
+        3 => 1,
+        _ => 2 + rng.below(250) as u8,
+    };
     st
 }
 
